@@ -425,6 +425,8 @@ func dispatchCase(c *vh.Ctx, cfgName string, err error) {
 func runServers(c *vh.Ctx) {
 	r := c.Rng
 	runHelloMutations(c, r)
+	runKeyShareLengths(c, r)
+	runPostHandshake(c, r)
 	runInjections(c, r)
 	runRawStreams(c, r)
 	if listener != nil {
